@@ -43,7 +43,7 @@ pub fn gen_ell(rng: &mut Rng) -> Case {
 fn run(ctx: &mut Ctx, extra: &mut BTreeMap<String, String>) {
   let seed = ctx.seed;
   let small = ctx.pass != "release";
-  let n = if ctx.thorough { if small { 6000 } else { 600_000 } } else if small { 600 } else { 24_000 };
+  let n = if ctx.thorough { if small { 6000 } else { 3_000_000 } } else if small { 600 } else { 24_000 };
   extra.insert("ellipses".into(), format!("{}", n));
   let _ = thresholds();
   run_sharded(ctx, 16, |c, k| {
@@ -114,16 +114,32 @@ pub fn judge(ctx: &mut Ctx, c: &Case) {
 }
 
 fn guards(ctx: &mut Ctx) {
+  // every entry point (free functions and Layer methods, plain and custom with every delta_depth incl. 0), circular (b == a) and
+  // flattened ellipses, several centres and position angles. Depth + delta <= 7 so that a tree that wrongly accepts the call returns quickly.
   for &a in [PI / 2.0, nudge(PI / 2.0, 1), 1.6, 3.0, 10.0, f64::INFINITY].iter() {
-    for &(d, dd) in [(3u8, 0u8), (0, 0), (12, 2), (29, 0), (5, 3)].iter() {
-      ctx.evals_n(2);
-      let c = Case::new("guard").u("depth", d as u64).u("dd", dd as u64).f("a", a);
-      if catch(|| nested::elliptical_cone_coverage(d, 1.0, 0.2, a, 0.1, 0.3)).is_ok() { ctx.violation("semi-major-axis>=pi/2-accepted", c.clone(), "elliptical_cone_coverage".into()); } else { ctx.bump("rejections-observed"); }
-      if catch(|| nested::elliptical_cone_coverage_custom(d, dd.max(1).min(29 - d.min(28)), 1.0, 0.2, a, 0.1, 0.3)).is_ok() && d < 29 { ctx.violation("semi-major-axis>=pi/2-accepted", c.clone(), "elliptical_cone_coverage_custom".into()); } else { ctx.bump("rejections-observed"); }
-      ctx.hard("guard:a>=pi/2", &[d as u64, dd as u64, a.to_bits()]);
+    for &(d, dd) in [(3u8, 0u8), (0, 0), (0, 1), (2, 2), (1, 4), (5, 2), (3, 1), (7, 0)].iter() {
+      for &bf in [1.0, 0.999, 0.5, 1e-3].iter() { for &(lon, lat, pa) in [(1.0, 0.2, 0.3), (0.0, PI / 2.0, 0.0), (4.0, -1.2, PI / 2.0)].iter() {
+        let b = if a.is_finite() { a * bf } else if bf == 1.0 { a } else { 1.0 };
+        let c = Case::new("guard").u("depth", d as u64).u("dd", dd as u64).f("a", a).f("b", b).f("lon", lon).f("lat", lat).f("pa", pa);
+        let layer = nested::get_or_create(d);
+        ctx.evals_n(4);
+        let calls: [(&str, Result<(), String>); 4] = [
+          ("nested::elliptical_cone_coverage", catch(|| { nested::elliptical_cone_coverage(d, lon, lat, a, b, pa); })),
+          ("Layer::elliptical_cone_coverage", catch(|| { layer.elliptical_cone_coverage(lon, lat, a, b, pa); })),
+          ("nested::elliptical_cone_coverage_custom", catch(|| { nested::elliptical_cone_coverage_custom(d, dd, lon, lat, a, b, pa); })),
+          ("Layer::elliptical_cone_coverage_custom", catch(|| { layer.elliptical_cone_coverage_custom(dd, lon, lat, a, b, pa); })),
+        ];
+        for (name, r) in calls.iter() { if r.is_ok() { ctx.violation("semi-major-axis>=pi/2-accepted", c.clone().s("cls", name), name.to_string()); } else { ctx.bump("rejections-observed"); } }
+        ctx.hard("guard:a>=pi/2", &[d as u64, dd as u64, a.to_bits(), b.to_bits(), lat.to_bits()]);
+      } }
     }
   }
-  // just below the limit must be accepted
+  // just below the limit must be accepted (plain and custom, circular and not)
+  for &bf in [1.0, 0.3].iter() { for &dd in [0u8, 2].iter() {
+    ctx.eval();
+    let a = nudge(PI / 2.0, -1);
+    if let Err(p) = catch(|| { nested::elliptical_cone_coverage_custom(2, dd, 1.0, 0.2, a, a * bf, 0.3); }) { ctx.violation("elliptical-cone-coverage-panics-on-valid-input", Case::new("guard").u("depth", 2).u("dd", dd as u64).f("a", a).f("b", a * bf), p); }
+  } }
   ctx.eval();
   if let Err(p) = catch(|| nested::elliptical_cone_coverage(2, 1.0, 0.2, nudge(PI / 2.0, -1), 0.1, 0.3)) { ctx.violation("elliptical-cone-coverage-panics-on-valid-input", Case::new("guard").u("depth", 2).u("dd", 0).f("a", nudge(PI / 2.0, -1)), p); }
 }
